@@ -3,6 +3,7 @@ package checks
 import (
 	"fmt"
 	"sort"
+	"strings"
 
 	"verif/harness/core"
 	"verif/harness/gen"
@@ -140,7 +141,28 @@ func finishChains(run *core.Run, outs []*BatchOutcome, opts ChainOpts,
 					run.Violation(sig, fmt.Sprintf("analyzer crashed on chain %v:\n%s", so.Batch.Chains[0].Links, so.Detail), fl)
 				}
 				if !isolated {
-					run.Violation("analyzer-panic:batch"+sigSuffix, "analyzer crashed on a generated batch (no single chain reproduces it alone):\n"+o.Detail, copyFiles(o))
+					// interaction between chains: delta-debug the batch down to a small crashing set
+					min := minimizeCrash(run, o.Batch.Chains, opts, fmt.Sprintf("dd%d", o.Index))
+					var keys []string
+					for _, ch := range min {
+						keys = append(keys, gen.Key(ch.Links))
+					}
+					sort.Strings(keys)
+					sig := "analyzer-panic:{" + strings.Join(keys, " + ") + "}" + sigSuffix
+					if len(min) > 6 {
+						sig = "analyzer-panic:batch" + sigSuffix
+					}
+					if !run.IsKnown(sig) {
+						mb := &gen.Batch{Chains: min}
+						fl := map[string]string{}
+						for n, c := range mb.Files() {
+							fl["prog/"+n] = c
+						}
+						for n, c := range gen.RuntimeFiles() {
+							fl["prog/"+n] = c
+						}
+						run.Violation(sig, fmt.Sprintf("analyzer crashed on a generated batch; smallest crashing set of chains found: %v\n%s", keys, o.Detail), fl)
+					}
 				}
 			} else {
 				run.Inconclusive(fmt.Sprintf("batch %d: %s: %s", o.Index, o.Status, firstLine(o.Detail)))
@@ -202,4 +224,44 @@ func copyFiles(o *BatchOutcome) map[string]string {
 		files["prog/"+n] = c
 	}
 	return files
+}
+
+// minimizeCrash delta-debugs a crashing batch: halves while one half still crashes, then removes chains one at a
+// time (bounded), re-running the analyzer each time.
+func minimizeCrash(run *core.Run, chains []gen.Chain, opts ChainOpts, tag string) []gen.Chain {
+	crashes := func(cs []gen.Chain, t string) bool {
+		if len(cs) == 0 {
+			return false
+		}
+		outs := ProcessBatches(run, tag+t, []*gen.Batch{{Chains: cs}}, opts)
+		return outs[0].Status == "analyzer-panic"
+	}
+	cur := chains
+	round := 0
+	for len(cur) > 1 && round < 8 {
+		round++
+		h := len(cur) / 2
+		a, b := cur[:h], cur[h:]
+		if crashes(a, fmt.Sprintf("-r%da", round)) {
+			cur = a
+			continue
+		}
+		if crashes(b, fmt.Sprintf("-r%db", round)) {
+			cur = b
+			continue
+		}
+		break
+	}
+	// one-at-a-time removal, at most 24 attempts
+	attempts := 0
+	for i := 0; i < len(cur) && attempts < 24 && len(cur) > 1; {
+		attempts++
+		cand := append(append([]gen.Chain{}, cur[:i]...), cur[i+1:]...)
+		if crashes(cand, fmt.Sprintf("-d%d", attempts)) {
+			cur = cand
+		} else {
+			i++
+		}
+	}
+	return cur
 }
